@@ -12,6 +12,7 @@ TrivInit == dummy = 0
 TrivNext == UNCHANGED dummy
 Clause(t, name, cond) == cond \/ (PrintT(<<"REJECT", t, name>>) /\ FALSE)
 Abs(x) == IF x < 0 THEN -x ELSE x
+WellFormed(d) == \A i \in 1..Len(d) : Len(d[i]) = 2
 Lookup(d, k) == IF \E i \in 1..Len(d) : d[i][1] = k THEN d[CHOOSE i \in 1..Len(d) : d[i][1] = k][2] ELSE "<absent>"
 Accept(t) == LET r == TLog[t] IN
    /\ Clause(t, "read-succeeds", r.ok)
@@ -19,9 +20,10 @@ Accept(t) == LET r == TLog[t] IN
       ( /\ Clause(t, "same-column-names", r.cols_out = r.cols)
         /\ Clause(t, "same-number-of-rows", r.nrow_out = r.nrow)
         /\ (r.cols_out # r.cols \/ r.nrow_out # r.nrow) \/
-           Clause(t, "cell-values", \A c \in 1..Len(r.cols) : \A i \in 1..r.nrow :
+           Clause(t, "cell-values", Len(r.cells_out) = Len(r.cols) /\ \A c \in 1..Len(r.cols) : Len(r.cells_out[c]) = r.nrow /\ \A i \in 1..r.nrow :
                  IF r.kinds[c] = "f" THEN Abs(r.cells_out[c][i] - r.cells[c][i]) <= 1
                  ELSE r.cells_out[c][i] = r.cells[c][i])
+        /\ Clause(t, "comment-dictionary-well-formed", WellFormed(r.comments_out))
         /\ Clause(t, "caller-comments-returned", \A k \in 1..Len(r.comments) : Lookup(r.comments_out, r.comments[k][1]) = r.comments[k][2])
         /\ Clause(t, "row-and-column-counts-recorded", Lookup(r.comments_out, "nrow") = r.nrow_str /\ Lookup(r.comments_out, "ncol") = r.ncol_str) )
 ASSUME \A t \in 1..Len(TLog) : Accept(t) \/ TRUE
